@@ -28,6 +28,8 @@ Obs ==
   /\ Chk("outdated_flags_equal_spec", \A i \in Node : Ev.outd[i] = Outd(flag')[i])
   /\ Chk("coherent", \A i \in Node : ~Ev.outd[i] => Ev.val[i] = Fresh(val')[i])
   /\ Chk("shapes_of_values_preserved", Ev.shapes = Hdr.value_shapes /\ Ev.uniform)
+  \* the fake distributions draw non-integers (fraction .25): a stored draw is the draw itself, not a truncation of it
+  /\ Chk("stored_values_are_integers_or_draws", \A i \in Node : Ev.fracs[i] \in {"0.0", "0.25"})
 
 SimOf(d) == CHOOSE s \in {Hdr.sims[j] : j \in 1..Len(Hdr.sims)} : s.d = d
 Skipped == {Hdr.sims[j].d : j \in 1..Len(Hdr.sims)} \ SeqToSet(Ev.order)
@@ -38,6 +40,8 @@ TSimulate ==
          /\ Cardinality(SeqToSet(Ev.order)) = Len(Ev.order)
          /\ SeqToSet(Ev.order) = {Hdr.sims[j].d : j \in 1..Len(Hdr.sims)} \
                                  {Hdr.sims[j].d : j \in {k \in 1..Len(Hdr.sims) : Hdr.sims[k].target \in SeqToSet(Ev.skip)}})
+  /\ Chk("drawn_values_are_stored_as_drawn_not_truncated",
+         \A j \in 1..Len(Ev.order) : Ev.fracs[SimOf(Ev.order[j]).target] = "0.25")
   /\ Chk("ancestral_order_parents_before_children",
          \A a, b \in 1..Len(Ev.order) :
             (SimOf(Ev.order[a]).target \in UNION {{p} \cup Anc(p) : p \in SeqToSet(SimOf(Ev.order[b]).params)}) => a < b)
